@@ -320,6 +320,12 @@ MonC35(g, pre, a, r, post) ==
         THEN {Cl("C35", "duplicate-registration-accepted")} ELSE {})
        \cup (IF a.t \in {"scupd", "scquit"} /\ okr /\ (ById(pre.sc, a.id) = {} \/ Pick(ById(pre.sc, a.id)).own # a.own)
              THEN {Cl("C35", "non-owner-request-accepted:" \o a.t)} ELSE {})
+       \* single approvals: the registry changes only when the approvals given to THIS (method, chain id) reach the quorum
+       \* (approvals of another request kind of the same chain never count; replaced requests are C32's subject)
+       \cup (IF a.t = "ap" /\ a.m \in ScMethods /\ ById(pre.sc, a.id) # ById(post.sc, a.id)
+                /\ Cardinality((ApprOf(g, a.m, GKey(a)) \cup OldOf(g, a.m, GKey(a)) \cup {a.own}) \cap ConsAddr(pre))
+                       < Ceil2of3(Cardinality(ConsAddr(pre)))
+             THEN {Cl("C35", "changed-below-quorum-of-own-approvals:" \o a.m)} ELSE {})
        \cup UNION {
             IF ById(pre.sc, id) = {} THEN
                 \* a chain id becomes registered: only by an approved registration, with the requested record
